@@ -161,6 +161,22 @@ PROPS["C04"] = {
     "level_note": "Bounds: the (n,u) grid; trusted: Kani/CBMC/CaDiCaL, the recorded log2 table, the assume-guarantee split at the selection back-end.",
 }
 
+PROPS["C12"] = {
+    "engine": "kani", "module": "c12", "feature": "c12", "jobs": 10, "pre": ["gen_ef"],
+    "functions": ["every safe public method of BitVec, AtomicBitVec, BitFieldVec (u8, u32, usize), AtomicBitFieldVec, Rank9, RankSmall, "
+                  "EliasFano (get, index_of, succ, succ_strict, pred, pred_strict, iter_from), called with unconstrained arguments"],
+    "bounds": "structures as in C01-C06/C10 (3-4 symbolic backing words, 9 words for rank structures, EF grid points (0,0),(1,5),(3,7),(4,10),(2,2^32)); "
+              "arguments fully symbolic and unconstrained; iterators driven past their end; run with --prove-safety-only (panics are allowed outcomes)",
+    "outside": "*_unchecked methods and get_unaligned_unchecked (documented as requiring in-range arguments); release-only wrap-around; selection "
+               "structures, rear-coded lists beyond C09's bounds, VFunc/VFilter (not constructible outside the builder; their index range is C16); "
+               "builder, epserde and lender code",
+    "assumptions": EF_STUBS + ["a call of select(_zero)_unchecked outside the selection precondition is modelled as an invalid read (it is undefined behaviour with the real back-ends)"],
+    "level_text": "Bounded model checking with CBMC's memory-safety checks only (--prove-safety-only): every pointer dereference, "
+                  "get_unchecked precondition, slice index and unaligned read reachable from a safe call with arbitrary arguments is in bounds.",
+    "level_note": "Bounds as stated; trusted: Kani's memory model (object bounds, std's unsafe-precondition checks as CBMC assertions).",
+    "technique": "bounded model checking (Kani/CBMC --prove-safety-only) of safe entry points with unconstrained symbolic arguments",
+}
+
 # Properties not (yet) claimed, with the reason. Entries for properties that
 # gain a check are ignored by tools/gen_manifest.py.
 NOT_APPLICABLE = {
@@ -169,7 +185,6 @@ NOT_APPLICABLE = {
     "C08": "no-false-negatives is C07 for a hashed value (same builder, same obstacle); 'false-positive frequency close to 2^-b' is a statistical statement about a hash, not an assertion an SMT solver can decide",
     "C09": "check not built yet in this revision (planned, partial: DESIGN.md §2 C09)",
     "C11": "check not built yet in this revision (planned, partial: DESIGN.md §2 C11)",
-    "C12": "check not built yet in this revision (planned: DESIGN.md §2 C12)",
     "C15": "mmap/load_full are file I/O and an FFI mmap call; epserde's in-memory (de)serialisation hashes type names and walks a generic reader/writer stack of a dependency: heap- and loop-heavy, beyond a bounded encoding; measured obstacles in DESIGN.md §2 C15",
     "C16": "check not built yet in this revision (planned: DESIGN.md §2 C16, engine E2)",
     "C17": "same entry points and obstacles as C07 (threads, per-key hashing, file-backed stores); build_loop is a private generic method whose retry logic cannot be driven without rewriting the builder",
